@@ -5,6 +5,7 @@
 -/
 import Gama.Proto
 import Gama.Model.NetDecision
+import Gama.Model.SingularCoords
 open Gama Gama.Proto Gama.Ls Gama.NetDecision
 
 structure NdEntry where
@@ -102,6 +103,47 @@ def showVerdict : Verdict → String
     s!"verdict cannot {d} {if ne then 1 else 0} {ls}"
   | .exception o => "verdict exception " ++ showOutcome o
 
+/-- `sc <k> {<id> <xy> <ix> <iy>}*k <rows> <cols> <hex>*`: the points of the `singular_coords` op -/
+def takePts : Nat → List String → Option (List (String × CStat × Nat × Nat) × List String)
+  | 0, ts => some ([], ts)
+  | k + 1, id :: st :: ix :: iy :: rest => do
+    let c ← match st.toList with
+      | [ch] => parseStat ch
+      | _ => none
+    let i ← ix.toNat?
+    let j ← iy.toNat?
+    let (l, r) ← takePts k rest
+    some ((id, c, i, j) :: l, r)
+  | _, _ => none
+
+def chunk (c : Nat) : Nat → List Float → List (Array Float)
+  | 0, _ => []
+  | r + 1, l => (l.take c).toArray :: chunk c r (l.drop c)
+
+def runSc (ts : List String) : Option String := do
+  match ts with
+  | k :: rest =>
+    let kn ← k.toNat?
+    let (pts, rest) ← takePts kn rest
+    match rest with
+    | r :: c :: vals =>
+      let rn ← r.toNat?
+      let cn ← c.toNat?
+      let vs ← vals.mapM (fun w => (Wire.parse w : Option Float))
+      if vs.length != rn * cn then none else
+      let A : DMat Float := (chunk cn rn vs).toArray
+      let ps : List MinX.PtS := pts.map fun (id, st, _, _) => ⟨id, st, .unused⟩
+      let idx : MinX.Unk → Nat := fun u => match u with
+        | .x p => (pts[p]?.map (·.2.2.1)).getD 0
+        | .y p => (pts[p]?.map (·.2.2.2)).getD 0
+        | _ => 0
+      let (b, ps', ids) := SingularCoords.singularCoords A idx ps
+      let sts := String.join (ps'.map fun q => " " ++ q.id ++ ":" ++ String.ofList [stChar q.xy])
+      let rm := if ids.isEmpty then " -" else String.join (ids.map fun i => " " ++ i)
+      some s!"sing {if b then 1 else 0}{sts} |{rm}"
+    | _ => none
+  | _ => none
+
 def step (s : St0) (line : String) : St0 × String :=
   match tokens line with
   | [] => (s, "")
@@ -121,6 +163,7 @@ def step (s : St0) (line : String) : St0 × String :=
     match parseEntry rest with
     | some e => ({ s with table := e :: s.table }, "")
     | none => (s, "bad-op")
+  | "sc" :: rest => (s, (runSc rest).getD "bad-op")
   | ["run"] =>
     let r := NetDecision.decide s.m0 (world s.table) s.pts
     let rm := if r.1.isEmpty then " -" else String.join (r.1.map fun (id, c) => " " ++ id ++ ":" ++ c.name)
